@@ -257,8 +257,59 @@ def probes():
   return out
 
 
+SYNTAX_TOKENS = [':=', '-->', ':-', ';', ',', '=>', '|', '||', '~', '#', '/*', '*/', '(', ')', '[', ']', '{', '}', ' in ',
+                 ' is ', '==', '=', '++', 'distinct', 'combine ', 'else if', '?', ':', '->', '@Ground(T)', 'import a.b.C']
+
+
+def string_contents():
+  """Characters inside a string literal are never syntax: a fact / a rule whose literals contain a separator, an
+  operator or a keyword is one rule, and the literal's value is the text between the quotes."""
+  parse, _, _ = R.mods()
+  out = {'name': 'C15-string-contents', 'evaluations': 0, 'distinct_nontrivial': 0, 'violations': [], 'samples': [],
+         'rule': '%d syntax tokens (separators, operators, keywords, brackets, comment markers) x {double-quoted, '
+                 'single-quoted, triple-quoted} literals x {fact, rule body, second statement}: ParseFile returns one rule '
+                 'per statement and the literal value is the token with its padding' % len(SYNTAX_TOKENS)}
+
+  def lits(x):
+    if isinstance(x, dict):
+      if 'the_string' in x and isinstance(x['the_string'], dict):
+        yield str(x['the_string'].get('the_string'))
+      for v in x.values():
+        yield from lits(v)
+    elif isinstance(x, list):
+      for v in x:
+        yield from lits(v)
+  for tok in SYNTAX_TOKENS:
+    val = 'a ' + tok + ' b'
+    forms = [('dq', '"%s"' % val)] + ([('sq', "'%s'" % val)] if "'" not in val else []) + [('tq', '"""%s"""' % val)]
+    for fname, lit in forms:
+      for shape, text, nrules in (('fact', 'T(1, %s);' % lit, 1), ('body', 'Q(x) :- T(x, y), y == %s;' % lit, 1),
+                                  ('second', 'A(1);\nT(1, %s);\nB(2);' % lit, 3)):
+        out['evaluations'] += 1
+        out['distinct_nontrivial'] += 1
+        try:
+          rules = parse.ParseFile(text)['rule']
+          found = list(lits(rules))
+          msg = None
+          if len(rules) != nrules:
+            msg = '%d rules parsed, the text has %d statements' % (len(rules), nrules)
+          elif found != [val]:
+            msg = 'string literals found: %r, the text has %r' % (found, [val])
+        except Exception as e:
+          msg = 'rejected: %s: %s' % (type(e).__name__, str(e)[:120])
+        if msg:
+          out['violations'].append({'key': 'C15-string-contents/%s/%s/%s' % (fname, shape, tok), 'replay': {
+              'obligation': 'C15-string-contents/%s/%s/%r' % (fname, shape, tok),
+              'clause': 'characters inside a string literal are never treated as syntax',
+              'solver': 'bounded back end (real parser)', 'input': {'program': text},
+              'native': {'case': {'program': text}, 'detail': msg, 'clause': 'string contents'}}})
+  out['samples'].append({'program': 'T(1, "a := b");', 'rules': 1})
+  out['violations'] = out['violations'][:5]
+  return out
+
+
 def run(tier, seed):
-  return [layout(tier, seed), probes()]
+  return [layout(tier, seed), probes(), string_contents()]
 
 
 def replay(spec):
